@@ -223,7 +223,8 @@ def must_fail():
 def run_unit(desc):
     h = SchedBaseHarness().run()
     rep = {"unit": f"{SFILE}::Scheduler.invoke_action+ScheduledItem", "kind": "function contracts (callee contracts of the scheduler harnesses)",
-           "functions": h.functions, "results": [r.as_dict() for r in h.results], "unsupported": h.unsupported, "spec_validation": [], "bounded": []}
+           "functions": h.functions, "results": [r.as_dict() for r in h.results], "unsupported": h.unsupported, "spec_validation": [], "bounded": [],
+           "replayable": {"runner": "vtsrun.py", "module": "-", "name": "C28"}}
     if desc.get("tier") == "thorough" and not h.unsupported:
         mf = must_fail()
         rep["must_fail"] = dict(mf, unit=rep["unit"])
